@@ -62,6 +62,7 @@ class C17:
             s = Script()
             emit_schema(s, 0, SCHEMA)
             s.add("fill", fill)
+            s.add("env", hx("HOME"), hx("/nonexistent/decoy-home"))     # ~ and ~/x come from the passwd database, not from $HOME
             s.add("mkdir", hx(base))
             marks = []
             for n, sub in enumerate(case["subs"]):
@@ -84,6 +85,8 @@ class C17:
                     elif what == "d":
                         s.add("mkdir", hx(os.path.join(dp, TARGET)))
                 s.add("mkfile", hx(os.path.join(root, "abs_exists.conf")), hx("marker = 99\n"))
+                s.add("mkfifo", hx(os.path.join(root, "d1", "fifo.conf")))            # neither a regular file nor a directory
+                s.add("mkfile", hx(os.path.join(root, "d3", "fifo.conf")), hx("marker = 77\n"))
                 s.add("mkdir", hx(os.path.join(root, "abs_dir")))
                 s.add("newcase")
                 s.add("init", 1, 0, 0)
@@ -91,6 +94,8 @@ class C17:
                     s.add("searchpath", 1, hx(d))
                 q = []
                 for name in sub["names"]:
+                    if ("fifo" in name or name == "/dev/null") and not sub["path"]:
+                        continue        # without a search path the name is opened as it is: a FIFO would block (no property about that)
                     nm = name.replace("@ROOT@", root)
                     e = {"name": nm}
                     e["find"] = s.add("findfile", 1, hx(nm))
@@ -222,7 +227,7 @@ class C17:
 
     NAMES = [TARGET, "sub/" + TARGET, "@ROOT@/abs_exists.conf", "@ROOT@/abs_missing.conf", "@ROOT@/abs_dir", "@ROOT@/d2/" + TARGET, "",
              "~", "~/x", "~root", "~root/x", "~bin/ls", "~nosuchuser9/x", "~nosuchuser9/td/" + TARGET, "~" + "a" * 300, "~r", "~roo", "~rootx/y",
-             "nosuch.conf", ".", "d1", "d1/" + TARGET]
+             "nosuch.conf", ".", "d1", "d1/" + TARGET, "/dev/null", "fifo.conf", "@ROOT@/d1/fifo.conf"]
 
     def run(self, r):
         placements = ["".join(p) for p in itertools.product("fdn", repeat=4)]
